@@ -215,7 +215,31 @@ func executeOCSPCheck(ctx context.Context, cert, issuer *x509.Certificate, serve
 		return nil, GenericError{Err: errors.New("OCSP signature required")}
 	}
 
-	return ocsp.ParseResponseForCert(body, cert, issuer)
+	ocspResp, err := ocsp.ParseResponseForCert(body, cert, issuer)
+	if err != nil {
+		return nil, err
+	}
+	if err := validateResponder(ocspResp, issuer); err != nil {
+		return nil, GenericError{Err: err}
+	}
+	return ocspResp, nil
+}
+
+// validateResponder checks that a response signed by a certificate embedded
+// in the response was signed by an authorized responder: either the issuer
+// itself, or a certificate issued by the issuer that carries the
+// id-kp-OCSPSigning extended key usage (RFC 6960, Section 4.2.2.2).
+func validateResponder(resp *ocsp.Response, issuer *x509.Certificate) error {
+	responder := resp.Certificate
+	if responder == nil || responder.Equal(issuer) {
+		return nil
+	}
+	for _, eku := range responder.ExtKeyUsage {
+		if eku == x509.ExtKeyUsageOCSPSigning {
+			return nil
+		}
+	}
+	return errors.New("OCSP response is signed by a certificate that is not authorized for OCSP signing")
 }
 
 func postRequest(ctx context.Context, req []byte, server string, httpClient *http.Client) (*http.Response, error) {
